@@ -41,7 +41,19 @@ def rule_separator(rep, crate):
     if rep.anchor(rid, 'fn <AttributeParser as Iterator>::next', nx is not None):
         helpers = [b for b, t in nx.calls() if re.search(r'AttributeParser::(collect_tail|%s)$' % '|'.join(ARMS), nx.callee_name(t))]
         somes = [(bi, x) for kind, bi, si, x in nx.defs().get(0, []) if kind == 'stmt' and x['rhs']['rv'] == 'agg' and x['rhs']['kind'].get('variant') == 'Some' and bi in nx.live_blocks()]
-        rep.inst(rid, 'next:arms', detail=dict(some_returns=len(somes), helper_calls=len(helpers)))
+        # an arm may also assign the item to a local that a single `Some(item)` wraps afterwards: the arms are then the
+        # definitions of that local
+        yields = []
+        for bi, x in somes:
+            r0 = trace(nx, x['rhs']['ops'][0]) if x['rhs']['ops'] else ('?',)
+            ds = [d for d in nx.defs().get(r0[1], []) if d[1] in nx.live_blocks()] if r0[0] == 'multi' else []
+            if len(ds) > 1:
+                for kind, dbi, dsi, dx in ds:
+                    yields.append((dbi, dict(line=dx.get('line'))))
+            else:
+                yields.append((bi, x))
+        somes = yields
+        rep.inst(rid, 'next:arms', detail=dict(item_yields=len(somes), helper_calls=len(helpers)))
         if len(somes) < 5:
             rep.viol(rid, 'separator:next:arms', 'expected at least five item-yielding arms in AttributeParser::next, found %d' % len(somes), loc(nx))
         none_after_next_tt = []
